@@ -33,6 +33,8 @@ def item_wellformed(item):
         toks = item.split()
         if not toks or not re.match(r"^[GMT][0-9]+(\.[0-9]+)?$", toks[0]):
             return False
+        if toks[0] in ("G10", "G11"):
+            return True      # firmware retract / recover: the parameter text is copied verbatim from the original command
         letters = [t[0].upper() for t in toks[1:]]
         return all(re.match(r"^[A-Za-z][-+]?[0-9]*\.?[0-9]+$", t) for t in toks[1:]) and len(letters) == len(set(letters))
     parts = RP.item_parts(item)
@@ -52,7 +54,33 @@ def item_wellformed(item):
     return all(getattr(h, "plain", False) for h in holes)
 
 
-def synthesised_wellformed(result, cmd):
+def passthrough_texts(f):
+    """Native replay only: texts that reach the output without being synthesised by the filter -- the configured
+    enter/exit script lines, stored deferred commands and the original text of a remembered firmware retraction.
+    (Symbolically these are splices / opaque strings and are recognised by their representation.)"""
+    out = set()
+    if not getattr(f, "native", False):
+        return out
+    roots = [getattr(f.old, "self", None)]
+    st = getattr(roots[0], "state", None)
+    if st is not None:
+        roots.append(st)
+    for r in roots:
+        for name in ("enteringExcludedRegionGcode", "exitingExcludedRegionGcode"):
+            v = getattr(r, name, None)
+            if isinstance(v, (list, tuple)):
+                out.update(x for x in v if isinstance(x, str))
+        pend = getattr(r, "pendingCommands", None)
+        if hasattr(pend, "values"):
+            out.update(x for x in pend.values() if isinstance(x, str))
+        for holder in (r, getattr(r, "lastRetraction", None)):
+            oc = getattr(holder, "originalCommand", None)
+            if isinstance(oc, str):
+                out.add(oc)
+    return out
+
+
+def synthesised_wellformed(result, cmd, passthrough=()):
     items = RP.items_of(result)
     if items is None:
         return True
@@ -61,6 +89,8 @@ def synthesised_wellformed(result, cmd):
         if it is None or hasattr(it, "seq") or it is cmd:
             continue
         if isinstance(it, str) and isinstance(cmd, str) and it == cmd:
+            continue
+        if isinstance(it, str) and it in passthrough:
             continue
         if ops.is_sym(it):
             continue                   # the original command or a stored deferred command: not synthesised
@@ -71,7 +101,8 @@ def synthesised_wellformed(result, cmd):
 def _add(qual, getter=None, cmd=None):
     con = REGISTRY.get(qual)
     con.ensures("C07.synthesised-commands-are-plain-decimal",
-                lambda f: synthesised_wellformed(getter(f) if getter else f.result, cmd(f) if cmd else None), props=("C07",))
+                lambda f: synthesised_wellformed(getter(f) if getter else f.result, cmd(f) if cmd else None, passthrough_texts(f)),
+                props=("C07",))
 
 
 _add(S + "exitExcludedRegion")
